@@ -635,7 +635,9 @@ func (e *exec) do(op *Op) {
 				e.viol("C15", "panic-vs-model", map[string]string{"op": "write", "stack": e.stackOf(op.N)}, "Write panicked: %s", p)
 				e.stop = true
 			}
-			e.markAllWeak()
+			if !e.landsInCache(nd.Parent) {
+				e.markAllWeak()
+			}
 		} else if nd.Kind == "multi" {
 			for _, it := range e.iters {
 				if !it.closed && it.node == op.N {
@@ -768,6 +770,13 @@ func (e *exec) fullKey(n, sub int, k []byte) string {
 // that key falls under the two-sided rule for it: whatever it yields for the key must be a value its
 // store's view held at some moment between open and yield; keys nobody touched are held to the snapshot.
 func (e *exec) noteWrite(n, sub int, k []byte) {
+	if e.landsInCache(n) {
+		// the write stays in a caching wrapper: every open iterator took a private copy of that wrapper's dirty
+		// items when it was created, so it keeps yielding exactly the overlay it was created on (strong rule)
+		e.res.Stats.C("writes", 1)
+		e.res.Stats.C("writes_under_open_iterators_strong", int64(e.openIters()))
+		return
+	}
 	fk := e.fullKey(n, sub, k)
 	for _, it := range e.iters {
 		if it.closed {
@@ -801,6 +810,25 @@ func (e *exec) recordViews() {
 			}
 		}
 	}
+}
+
+// landsInCache: a write issued on node n ends up in the dirty set of a cachekv store (not in a base store).
+func (e *exec) landsInCache(n int) bool {
+	if n < 0 {
+		return false
+	}
+	k := e.tr.Nodes[e.landing(n)].Kind
+	return k == "cache" || k == "multi"
+}
+
+func (e *exec) openIters() int {
+	c := 0
+	for _, it := range e.iters {
+		if !it.closed {
+			c++
+		}
+	}
+	return c
 }
 
 func (e *exec) markAllWeak() {
